@@ -622,6 +622,7 @@ def run(ck: Check):
     for case, recs, m in zip(cases, impl, models):
         compare_case(ck, case, recs, m, funcs_m)
     run_compare_options(ck)
+    run_bws_exact_regime(ck)
     ck.notes.append(
         "array-like non-ndarrays (objects exposing .shape) are not type-checked by compare in any class; they are compared "
         "with the model (which predicts exactly that) but not flagged: the brief lists lists/None/scalars as the non-array inputs"
@@ -682,6 +683,34 @@ def run_compare_options(ck):
                 ck.violation(dict(clause="pure", cause="compare-option", detector=name), dict(what="a compare call with an option changed the detector (deep snapshot differs)", **detail))
             elif not same_out(("ok", r1), ("ok", r3)):
                 ck.violation(dict(clause="repeatable", cause="compare-option", detector=name), dict(what="compare(Y) before and after a compare(Y, option) differ", first=r1, third=r3, **detail))
+
+
+def run_bws_exact_regime(ck):
+    """BWSTest on sizes with 1000 .. 9999 distinct arrangements (C(14,7) = 3432, C(14,6) = 3003): SciPy's default enumerates
+    them all, so the result is exact: repeating compare gives the identical p-value, equal to scipy.stats.bws_test's."""
+    import random as _random
+    from scipy.stats import bws_test as _bws
+    from frouros.detectors.data_drift import BWSTest as _BWS
+
+    prng = _random.Random(141414)
+    for n, m in ((7, 7), (6, 8)):
+        X = np.array([prng.gauss(0, 1) for _ in range(n)])
+        Y = np.array([prng.gauss(0.9, 1) for _ in range(m)])
+        try:
+            d = _BWS()
+            d.fit(X=X)
+            np.random.seed(1)
+            r1 = d.compare(X=Y)[0]
+            np.random.seed(2)
+            r2 = d.compare(X=Y)[0]
+            e = _bws(X, Y)
+        except Exception as ex:  # noqa: BLE001
+            ck.violation(dict(clause="raises", detector="BWSTest", scenario="exact-regime"), dict(error=repr(ex), X_ref=X.tolist(), X_test=Y.tolist()))
+            continue
+        ck.case(dict(kind="bws-exact-regime", n=n, m=m), nontrivial=True, key=repr(("bws-exact", n, m)))
+        ck.count("bws_exact_regime_cases")
+        if not (float(r1.p_value) == float(r2.p_value) == float(e.pvalue) and float(r1.statistic) == float(r2.statistic) == float(e.statistic)):
+            ck.violation(dict(clause="repeatable", detector="BWSTest", regime="exact"), dict(what="BWSTest in the exact regime (all arrangements enumerated) is not repeatable / differs from scipy.stats.bws_test", n=n, m=m, first=[float(r1.statistic), float(r1.p_value)], second=[float(r2.statistic), float(r2.p_value)], scipy=[float(e.statistic), float(e.pvalue)], X_ref=X.tolist(), X_test=Y.tolist()))
 
 
 def main(tier, seed):
